@@ -159,7 +159,7 @@ func pathClean(p string) string { return path.Clean(p) } // as ServeHTTP applies
 
 type nopHook struct{}
 
-func (nopHook) Before(string)                        {}
+func (nopHook) Before(string)                       {}
 func (nopHook) After(string, string, app.VerifArgs) {}
 
 func storeContents(st queue.Store) []string {
@@ -525,8 +525,9 @@ type visRun struct {
 	Calls    []visCall `json:"calls"`
 	Outcome  string    `json:"outcome"`
 	ReloadOK bool      `json:"reload_ok"`
-	Fired    bool      `json:"fired"` // the request reached the accessor before which the reload was to run
-	Via      string    `json:"via"`   // how the window was entered: "sync-point" | "halves"
+	Fired    bool      `json:"fired"`    // the request reached the accessor before which the reload was to run
+	Progress int       `json:"progress"` // inlock: accessors that answered while the reload was held inside its critical section
+	Via      string    `json:"via"`      // how the window was entered: "sync-point" | "halves"
 }
 
 type visReqRes struct {
@@ -545,6 +546,7 @@ type visRes struct {
 
 // visHook runs `action` immediately before the callback with index `at` (0-based, in order of invocation).
 type visHook struct {
+	mu     sync.Mutex
 	at     int
 	n      int
 	action func()
@@ -552,6 +554,12 @@ type visHook struct {
 	calls  []visCall
 	refOld *app.VerifState
 	refNew *app.VerifState
+}
+
+func (h *visHook) ncalls() int {
+	h.mu.Lock()
+	defer h.mu.Unlock()
+	return len(h.calls)
 }
 
 func (h *visHook) Before(cb string) {
@@ -570,7 +578,9 @@ func (h *visHook) After(cb string, answer string, a app.VerifArgs) {
 	if h.refNew != nil {
 		c.New = h.refNew.Answer(cb, a)
 	}
+	h.mu.Lock()
 	h.calls = append(h.calls, c)
+	h.mu.Unlock()
 }
 
 type visEnv struct {
@@ -629,8 +639,9 @@ func (e *visEnv) execute(rq visRequest, mode string, at int) visRun {
 	primed := storeContents(store)
 
 	hook := &visHook{at: at, refOld: refOld, refNew: refNew}
-	var release chan struct{}
+	var release, entered chan struct{}
 	var done chan bool
+	inlock := false
 	switch {
 	case mode == "old":
 	case mode == "new":
@@ -646,11 +657,14 @@ func (e *visEnv) execute(rq visRequest, mode string, at int) visRun {
 	case mode == "window":
 		// the whole request runs between two consecutive critical sections of reloadConfig:
 		// the reload is held at its sync point number `at` (0 = after the first critical section)
-		entered := make(chan struct{}, 1)
+		entered = make(chan struct{}, 1)
 		release = make(chan struct{})
 		done = make(chan bool, 1)
 		seen := 0
 		app.VerifSetSyncHook(func(point string) {
+			if !strings.HasPrefix(point, "after-") {
+				return // a point inside a critical section: see mode "inlock"
+			}
 			if seen == at {
 				run.Via = "sync-point:" + point
 				entered <- struct{}{}
@@ -675,42 +689,76 @@ func (e *visEnv) execute(rq visRequest, mode string, at int) visRun {
 			run.ReloadOK = ok
 		}
 		note("new")
-	case mode == "window-halves":
-		if err := st.LoadAuth(e.newC); err != nil {
-			run.Outcome = "loadAuth-error:" + err.Error()
+	case mode == "inlock":
+		// the reload is held INSIDE its critical section, between the assignment of the authenticator
+		// fields and alsoLocked() (the route table half).  The request is started meanwhile; it must not
+		// get an answer from any accessor until the reload has left the section.
+		entered = make(chan struct{}, 1)
+		release = make(chan struct{})
+		done = make(chan bool, 1)
+		app.VerifSetSyncHook(func(point string) {
+			if point == "before-alsoLocked" {
+				entered <- struct{}{}
+				<-release
+			}
+		})
+		go func() {
+			_, ok := app.VerifReload(e.newPath, e.oldC, st)
+			done <- ok
+		}()
+		select {
+		case <-entered:
+			run.Via = "sync-point:before-alsoLocked"
+			inlock = true
+		case ok := <-done:
+			app.VerifSetSyncHook(nil)
+			done = nil
+			run.Via = "not-reached"
+			run.ReloadOK = ok
 			return run
 		}
-		run.Via = "halves"
-		run.ReloadOK = true
-		note("new")
 	}
 
 	var w *httptest.ResponseRecorder
-	switch rq.Kind {
-	case "pull":
-		ph := st.Pull(store, e.oldC, hook)
-		r := httptest.NewRequest(http.MethodPost, "http://verif.local"+rq.Pull.Path+"/dequeue", strings.NewReader(`{"batch":5}`))
-		if rq.Pull.Token != "" {
-			r.Header.Set("Authorization", "Bearer "+rq.Pull.Token)
+	doRequest := func() {
+		switch rq.Kind {
+		case "pull":
+			ph := st.Pull(store, e.oldC, hook)
+			r := httptest.NewRequest(http.MethodPost, "http://verif.local"+rq.Pull.Path+"/dequeue", strings.NewReader(`{"batch":5}`))
+			if rq.Pull.Token != "" {
+				r.Header.Set("Authorization", "Bearer "+rq.Pull.Token)
+			}
+			w = httptest.NewRecorder()
+			ph.ServeHTTP(w, r)
+			run.Outcome = fmt.Sprintf("%d items=%v", w.Code, dequeuedRoutes(w.Body.Bytes()))
+		default:
+			ing := st.Ingress(store, e.oldC, hook)
+			w = httptest.NewRecorder()
+			ing.ServeHTTP(w, buildIngressRequest(rq.Ingress))
+			after := storeContents(store)
+			run.Outcome = fmt.Sprintf("%d enq=%v", w.Code, subtractMulti(after, primed))
 		}
-		w = httptest.NewRecorder()
-		ph.ServeHTTP(w, r)
-		run.Outcome = fmt.Sprintf("%d items=%v", w.Code, dequeuedRoutes(w.Body.Bytes()))
-	default:
-		ing := st.Ingress(store, e.oldC, hook)
-		w = httptest.NewRecorder()
-		ing.ServeHTTP(w, buildIngressRequest(rq.Ingress))
-		after := storeContents(store)
-		run.Outcome = fmt.Sprintf("%d enq=%v", w.Code, subtractMulti(after, primed))
+	}
+	if inlock {
+		reqDone := make(chan struct{})
+		go func() {
+			doRequest()
+			close(reqDone)
+		}()
+		time.Sleep(3 * time.Millisecond)
+		run.Progress = hook.ncalls() // accessors that answered while the reload was inside its section
+		close(release)
+		run.ReloadOK = <-done
+		<-reqDone
+		app.VerifSetSyncHook(nil)
+	} else {
+		doRequest()
 	}
 
 	if mode == "window" && done != nil {
 		close(release)
 		run.ReloadOK = <-done
 		app.VerifSetSyncHook(nil)
-	}
-	if mode == "window-halves" {
-		st.UpdateAll(e.newC)
 	}
 	note("new")
 	run.Fired = hook.fired
@@ -746,7 +794,8 @@ func reloadVisibility(inb []byte) (any, error) {
 	var in struct {
 		Dir        string        `json:"dir"`
 		Scenarios  []visScenario `json:"scenarios"`
-		SyncPoints int           `json:"sync_points"` // number of sync points in the overlay copy of reloadConfig
+		SyncPoints int           `json:"sync_points"` // number of "after-<call>" sync points in the overlay copy of reloadConfig
+		InLock     bool          `json:"inlock"`      // the overlay copy has the point inside loadAuthAnd's critical section
 	}
 	if err := json.Unmarshal(inb, &in); err != nil {
 		return nil, err
@@ -758,6 +807,7 @@ func reloadVisibility(inb []byte) (any, error) {
 	defer fwd.Close()
 	var out []visRes
 	syncAvailable := false
+	inlockSeen := false
 	for si, sc := range in.Scenarios {
 		res := visRes{ID: sc.ID}
 		dir := filepath.Join(in.Dir, fmt.Sprintf("vis%d", si))
@@ -808,14 +858,18 @@ func reloadVisibility(inb []byte) (any, error) {
 					rr.Mixed = append(rr.Mixed, wrun)
 				}
 			}
-			if !entered {
-				rr.Mixed = append(rr.Mixed, env.execute(rq, "window-halves", 0))
+			_ = entered
+			if in.InLock {
+				if irun := env.execute(rq, "inlock", 0); strings.HasPrefix(irun.Via, "sync-point") {
+					inlockSeen = true
+					rr.Mixed = append(rr.Mixed, irun)
+				}
 			}
 			res.Results = append(res.Results, rr)
 		}
 		out = append(out, res)
 	}
-	return map[string]any{"scenarios": out, "sync_point_available": syncAvailable}, nil
+	return map[string]any{"scenarios": out, "sync_point_available": syncAvailable, "inlock_point_reached": inlockSeen}, nil
 }
 
 // ---------------------------------------------------------------------------
